@@ -3,7 +3,7 @@
    [exp_qr] / [exp_mm] / [exp_aec]: the record an application may expect back for a submitted record under given hints — they
    never look at a block table; [log_qr] / [log_mm]: what a whole history contributes, call by call;
    [has_tyb] / [typed_xb] / [admb]: deciders for the hypotheses (values within the ranges of the format; admissible history). *)
-Require Import Base Cbor EncoderModel DecoderModel Schema Timestamp Block Exporter.
+Require Import Base Cbor EncoderModel DecoderModel Schema Timestamp Block Exporter Merge.
 Local Open Scope N_scope.
 
 Definition is_some {A} (o : option A) : bool := match o with Some _ => true | None => false end.
@@ -122,3 +122,61 @@ Fixpoint log_aec (x : exporter) (ops : list xop) (k : list (option val)) : N :=
   | [] => 0
   | o :: r => (match o with XAec ga _ => new_aec (b_bp (x_blk x)) ga k | _ => 0 end) + log_aec (fst (xstep x o)) r k
   end.
+
+(* the same in one pass: the decoded keys of the accepted events, in order; [log_aec x ops k] is the number of occurrences of k *)
+Fixpoint log_aec_keys (x : exporter) (ops : list xop) : list (list (option val)) :=
+  match ops with
+  | [] => []
+  | o :: r => (match o with XAec ga _ => if N.testbit (h_other (b_bp (x_blk x))) 1 then [dkey ga] else [] | _ => [] end)
+              ++ log_aec_keys (fst (xstep x o)) r
+  end.
+Definition count_key (k : list (option val)) (l : list (list (option val))) : N :=
+  fold_right (fun k' a => (if okey_eqb k' k then 1 else 0) + a) 0 l.
+
+(* ---------- which hint bits enable generic query/response member i (0..38) ---------- *)
+Definition qr_guard (bp : bparams) (i : nat) : bool :=
+  let q := N.testbit (h_qr bp) in let s k := N.testbit (h_qr bp) 4 && N.testbit (h_sig bp) k in
+  nth i [q 0; q 1; q 2; q 3;
+         s 0; s 1; s 2; s 3; s 4; s 5; s 6; s 7; s 8; s 9; s 10; s 11; s 12; s 13; s 14; s 15; s 16;
+         q 5; q 6; q 7; q 8; q 9; q 10; q 10;
+         q 11; q 12; q 13; q 14; q 11; q 15; q 16; q 17] true.
+
+(* ---------- cdns-merge: the second pass as one list of blocks; deciders for the hypotheses of the merged-file theorem ---------- *)
+Definition nonempty (b : blk) : bool := negb (item_count b =? 0).
+Definition pass2_blocks (offs : list (N * N)) (ins : list minput) : list blk :=
+  flat_map (fun i => match i with
+                     | MBad _ => []
+                     | MFile name _ blocks => match lookup_off offs name with None => [] | Some off => map (remap off) blocks end
+                     end) ins.
+
+Local Open Scope Z_scope.
+Definition rate_okb (tps : Z) : bool := (1 <=? tps) && (tps <? M64).
+Definition instantz (t : ts) (tps : Z) : Z := secs t * tps + ticks t.
+Definition normalisedb (t : ts) (tps : Z) : bool := (0 <=? secs t) && (0 <=? ticks t) && (ticks t <? tps).
+Definition ts_okb (t : ts) (tps : Z) : bool := (0 <=? secs t) && (0 <=? ticks t) && (instantz t tps <? M63).
+Definition item_time_okb (e : ts) (tps : Z) (it : val) : bool :=
+  match it with
+  | VR (Some tv :: _) =>
+      rate_okb tps && match ts_of_val tv with
+                      | Some t => normalisedb t tps && ts_okb t tps && (instantz e tps <=? instantz t tps)
+                      | None => false
+                      end
+  | _ => true
+  end.
+Definition time_invb (b : blk) : bool :=
+  let e := b_earliest b in let tps := tps_of b in
+  (0 <=? secs e) && (0 <=? ticks e) && (if rate_okb tps then normalisedb e tps && ts_okb e tps else true) &&
+  forallb (item_time_okb e tps) (b_qrs b) && forallb (item_time_okb e tps) (b_mms b).
+Local Close Scope Z_scope.
+Local Open Scope N_scope.
+Definition aec_shapeb (k : val) : bool := match k with VR [_; _; _; _; Some (VN 0)] => true | _ => false end.
+Fixpoint nodup_valb (l : list val) : bool := match l with [] => true | k :: r => negb (existsb (val_eqb k) r) && nodup_valb r end.
+Definition aec_invb (l : list (val * N)) : bool := forallb (fun kc => aec_shapeb (fst kc)) l && nodup_valb (map fst l).
+Definition good_blkb (b : blk) : bool := time_invb b && aec_invb (b_aecs b).
+Definition bparams_eqb (a b : bparams) : bool :=
+  (bp_tps a =? bp_tps b) && (bp_max a =? bp_max b) && (h_qr a =? h_qr b) && (h_sig a =? h_sig b) && (h_rr a =? h_rr b) && (h_other a =? h_other b).
+Definition blk_params_okb (ps : list val) (b : blk) : bool := (b_bpi b <? N.of_nat (length ps)) && bparams_eqb (b_bp b) (nth_bp ps (b_bpi b)).
+Definition merge_okb (ins : list minput) : bool :=
+  let pre := merged_preamble (run_pass1 ins) in
+  has_tyb FilePreamble pre &&
+  forallb (fun b => if nonempty b then typed_blkb b && blk_params_okb (params_of pre) b && good_blkb b else true) (pass2_blocks (p_off (run_pass1 ins)) ins).
